@@ -62,6 +62,9 @@ pub struct Plan<E: FieldElement> {
     pub nonce: u64,
     /// do not send the remainder commitment at all
     pub omit_rem_commitment: bool,
+    /// log2 of the partition count written into the proof (layout-only metadata, not committed to; 0 = one
+    /// partition as every honest prover writes)
+    pub log_partitions: u8,
 }
 
 impl<E: FieldElement> Plan<E> {
@@ -77,6 +80,7 @@ impl<E: FieldElement> Plan<E> {
             num_queries,
             nonce,
             omit_rem_commitment: false,
+            log_partitions: 0,
         }
     }
 }
@@ -437,7 +441,7 @@ where
         Structure::Swap { a, b, .. } => proof_layers.swap(a, b),
     }
 
-    let proof_bytes = encode_proof(&proof_layers, &rem_sent, 0);
+    let proof_bytes = encode_proof(&proof_layers, &rem_sent, plan.log_partitions);
     AdvOut {
         commitments: sent_commitments,
         proof_bytes,
